@@ -292,9 +292,7 @@ class SeriesOps:
                     return pos[1] if len(pos) > 1 else None
                 return ("dictget", to_term(obj), to_term(pos[0]), to_term(pos[1]) if len(pos) > 1 else T.NONE)
             if name == "items":
-                if any(isinstance(k, tuple) and k and k[0] == "each" for k in obj):
-                    return ("dict_items", to_term(obj))
-                return [PyTuple([k, v]) for k, v in obj.items()]
+                return [PyTuple([k, v]) for k, v in obj.items()]      # also for symbolic ('each') keys: iteration over the keys behaves the same way
             if name == "keys":
                 return list(obj.keys())
             if name == "values":
